@@ -489,6 +489,10 @@ __wrap_arc4random_buf (void *buf, size_t n)
     }
   else
     __real_arc4random_buf (buf, n);
+  /* the C library's store into BUF is not instrumented: repeat it from
+     instrumented code so that the race detector knows this thread wrote it */
+  for (size_t i = 0; i < n; i++)
+    ((volatile unsigned char *) buf)[i] = ((unsigned char *) buf)[i];
 }
 
 static void
